@@ -42,7 +42,7 @@ func init() {
 			{Name: "S-SERVER/dtls", Weight: 2, Run: func(e *Env) { c10Twin(e, "dtls") }},
 			{Name: "S-SERVER/udp-discovery", Weight: 1, Run: c10Discovery},
 		},
-		Quick:    20000,
+		Quick:    100000,
 		Thorough: 1000000,
 		Assume: []string{
 			"transcripts are compared on code, token, options and payload, not on message IDs; adversaries never spoof a well-behaved peer's source address; handlers never block",
